@@ -362,6 +362,21 @@ def ob_roundtrip(sim, mode, dynamic, variant=None):
             if mode == "switch" and k == 1:
                 s.folder = ""
                 hist.append("folder=''")
+        # (0) right after the history was built, before anything else reads the simulation: go back to iteration 0 and apply the load of step 1 again -- the restored
+        # state (and nothing assembled for a later state) is what the step starts from
+        if not dynamic and sim in ("Elastic", "InElastic", "HyperElastic", "PhaseField"):
+            s.Set_Iter(0)
+            _bc(s, sim, 1)
+            s.Solve()
+            now = _state(s)
+            for kk in [q for q in now if q.startswith("u:")]:
+                e = float(np.abs(now[kk] - saved_state[1][kk]).max() / (np.abs(saved_state[1][kk]).max() + 1e-30))
+                if e > 1e-8:
+                    raise Refuted(f"{sim}{'/' + variant if variant else ''}/{mode}: straight after three solved and saved steps, Set_Iter(0) and the load of step 1 again give a {kk.split('.')[-1]} differing from "
+                                  f"stored iteration 1 by {e:.3e} (relative): something assembled for the last state is reused", cex=dict(history=hist + ["Set_Iter(0)", "Solve(load 1)"]),
+                                  signature=f"roundtrip:{sim}:replay:first", replay=dict(confirmed=True, rel_err=e))
+            s.Set_Iter(2)
+            _bc(s, sim, 2)
         # (1) reading a stored iteration alters nothing
         before = _state(s)
         for i in range(3):
